@@ -263,6 +263,8 @@ def m_chain(eng, st, args, kwargs, node):
         r = g(q)
         if isinstance(r, VMaybeNone):
             r = r.val
+        if not isinstance(r, VRef):
+            raise Unsupported("itertools.chain(*L): the entries of L are not sequences")
         return heap[r.addr].len
     lens = named_array(eng, z3.Lambda([k], rowlen(k)), "CHL", extra_triggers=False)
     sum_axioms(eng, lens, n, SUMI)
